@@ -356,7 +356,7 @@ class KRecorder:
         self.o_clf = kc.PageRankClassifier
         self.o_mod = kc.get_modularity
         rec = self
-        rec.centers, rec.labels, rec.mods = [], [], []
+        rec.centers, rec.labels, rec.mods, rec.calls = [], [], [], 0
 
         def init(adjacency, mask, n_clusters):
             c = rec.o_init(adjacency, mask, n_clusters)
@@ -367,6 +367,7 @@ class KRecorder:
             def fit_predict(self_, *a, **k):
                 r = super().fit_predict(*a, **k)
                 rec.last = np.asarray(r).copy()
+                rec.calls += 1
                 return r
 
         def mod(*a, **k):
@@ -399,17 +400,20 @@ def kcenters_cases(ctx, b, params, force_bipartite, seed):
     est = KCenters(**params)
     np.random.seed(seed)
     with KRecorder() as rec:
-        res = _call(lambda: (est.fit(b, force_bipartite=force_bipartite), 'ok')[1])
+        res = _call0(lambda: (est.fit(b, force_bipartite=force_bipartite), 'ok')[1],
+                     errors=(ValueError, IndexError, TypeError))
     nr, nc = b.shape
     bip = bool(est.bipartite) if est.bipartite is not None else (force_bipartite or nr != nc)
     sig0['bipartite'] = bip
     out = []
     head = '%d %d %s %d %d %s' % (est.n_clusters, est.n_init, enc_bool(bip), nr, nc, pos)
+    head_full = '%d %d %d %s %d %d %s' % (est.n_clusters, est.n_init, est.max_iter, enc_bool(bip), nr, nc, pos)
     if res != 'ok':
         ctx.count('fit-error:KCenters:%s' % res)
         # the refusals of fit are part of the model
-        out.append(Case(key0 + ('refuse',), dict(sig0, output='error'), 'c05.kcenters %s - - 0' % head, res, None,
-                        False, desc))
+        out.append(Case(key0 + ('refuse',), dict(sig0, output='error'),
+                        'c05.kcenters_full %s %s %s 0' % (head_full, enc_listlist(rec.centers), enc_listlist(rec.labels)),
+                        res, None, False, desc))
         return out
     lab = all_labels(est)
     nontriv = len(set(lab)) >= 2
@@ -419,6 +423,10 @@ def kcenters_cases(ctx, b, params, force_bipartite, seed):
     spec = 'c05.spec_kcenters %s %d %d %s %d %s %s' % (
         enc_bool(bip), nr, nc, pos, est.n_clusters, enc_list(lab), kcenters_str(est))
     out.append(Case(key0 + ('fit',), dict(sig0, output='labels_/centers_'), run, impl, spec, nontriv, desc))
+    # the whole fit with its restarts and assignment loop (number of assignments included)
+    out.append(Case(key0 + ('full',), dict(sig0, output='fit'),
+                    'c05.kcenters_full %s %s %s %d' % (head_full, enc_listlist(rec.centers), enc_listlist(rec.labels), idx),
+                    'ok %d %s %s' % (rec.calls, fitted_str(est), kcenters_str(est)), None, nontriv, desc))
     # _init_centers: bookkeeping of the mask for every restart
     for t, c in enumerate(rec.centers):
         out.append(Case(key0 + ('init', t), dict(sig0, output='_init_centers'),
@@ -604,7 +612,7 @@ def estimator_cases(ctx, name, b, reps=1, kcenters=True):
         lim = n_side[pos] if bip else b.shape[0]
         k = rng.randint(2, max(2, min(4, lim + (1 if rng.random() < 0.15 else 0))))
         params = {'n_clusters': k, 'center_position': pos, 'n_init': rng.choice([1, 2]),
-                  'directed': (not bip) and rng.random() < 0.3}
+                  'directed': (not bip) and rng.random() < 0.3, 'max_iter': rng.choice([20, 20, 1, 0])}
         out += kcenters_cases(ctx, b, params, fb, rng.randrange(10 ** 6))
     ctx.count('graph:' + name)
     return out
